@@ -129,6 +129,34 @@ def pcr_cases(mns, dists, rnd, inner=(0,)):
     return cases
 
 
+def across_org_cases(rnd, n):
+    """References whose target lies across a second ORG / an ORG after code: the displacement has to follow the ADDRESSES the listing
+    shows (or the program be rejected), not the sum of the statement sizes in between."""
+    cases = []
+    for _ in range(n):
+        a = rnd.choice([0, 0x10, 0x100, 0x0E00, 0x4000])
+        jump = rnd.choice([0, 1, 2, 0x40, 0x7C, 0x7E, 0x80, 0x100, 0x800, 0x7FF0, 0x9000, -0x40, -0x100]) if rnd.random() < 0.8 else rnd.randint(-0x200, 0xF000)
+        d1, d2 = rnd.choice([0, 0, 1, 3, 60, 120]), rnd.choice([0, 0, 1, 3, 60, 120])
+        if rnd.random() < 0.06:     # more bytes between the two statements than the address space holds
+            d1, d2 = rnd.choice([(40000, 40000), (30000, 36000), (65000, 600), (60000, 5534)])
+        kind = rnd.choice(["rel", "rel", "pcr"])
+        mn = rnd.choice(SHORT + LONG) if kind == "rel" else rnd.choice(["LDA", "LEAX", "LDY", "JSR"])
+        ref = stmt(mn, kind, label="B", expr=ex(sym("T")))
+        first = [stmt("ORG", "org", expr=ex(num(a, "hex4")))] if rnd.random() < 0.7 else []
+        gap1 = [filler(2, d1)] if d1 else []
+        gap2 = [filler(3, d2)] if d2 else []
+        b = (a + 3 + d1 + jump) & 0xFFFF
+        org2 = [stmt("ORG", "org", expr=ex(num(b, "hex4")))]
+        if rnd.random() < 0.5:      # forward across the ORG
+            prog = first + [ref] + gap1 + org2 + gap2 + [stmt("NOP", label="T"), stmt("NOP", label="E")]
+            focus = len(first) + 1
+        else:                        # backward across the ORG
+            prog = first + [stmt("NOP", label="T")] + gap1 + org2 + gap2 + [ref, stmt("NOP", label="E")]
+            focus = len(prog) - 1
+        cases.append(Case(prog, focus=focus, tag="across-org-" + kind))
+    return cases
+
+
 def run(ctx):
     thorough = ctx.tier == "thorough"
     rnd = random.Random(ctx.seed * 15485863 + 3)
@@ -150,6 +178,7 @@ def run(ctx):
         t, rk = asmgen.random_variant(rnd, rnd.choice(pcr))
         cases.append(asmcheck.framed(t, "pcr-numeric-random", **rk))
     asmcheck.run_suite(ctx, "pcr-numeric", cases)
+    asmcheck.run_suite(ctx, "across-org", across_org_cases(rnd, 20000 if thorough else 2000))
     ctx.cov["rule"] = ("TLC-enumerated sizing programs (fillers around the 8-bit limit x label,PCR statements with any target) replayed with the sizing-loop "
                        "hooks validated step by step against AsmSizing!Step; distance sweeps for all 38 branch mnemonics and label,PCR / [label,PCR] / "
                        "label+-n,PCR forward and backward with 0-3 undecided PCR statements inside the span; bytes judged by the certificate "
